@@ -4,13 +4,16 @@ PROP = dict(
     title="Array operations match a list model and fail cleanly",
     lean_module="AbraProofs.Properties.C26",
     required_theorems=["C26_len_spec", "C26_get_spec", "C26_set_spec", "C26_push_spec", "C26_pop_empty_is_error", "C26_pop_spec",
-                       "C26_construct_spec", "C26_ref_semantics", "C26_is_empty_spec", "C26_swap_spec", "C26_remove_spec",
+                       "C26_construct_spec", "C26_literal_spec", "C26_ref_semantics", "C26_is_empty_spec", "C26_swap_spec", "C26_remove_spec",
                        "C26_clear_spec", "C26_find_spec", "C26_contains_spec", "C26_clone_spec", "C26_clone_independent",
                        "C26_filled_spec"],
     harness_bin="c26",
     mismatch_is_violation=True,
     rule="programs over 2-3 array variables of depth 1 and 0-2 of depth 2 (array<array<E>>), E in {int from {0,1,2}, bool, void (nil), string from "
-         "6 short strings}; first the 7 regression programs of D34/D35 (array<void>); "
+         "6 short strings}; first the 10 hard regression programs of D34/D35 (array<void>) and D88 (function values "
+         "of array_get/array_set/array_push/array_pop at int and void element types in one program); array literals LONGER than 65535 elements (compiled as "
+         "ConstructArray(65535) + one ArrayPush per further element): quick int x 65540 and void x 65536, thorough {int,bool,void,string} x {65535,65536,65537,65540}: "
+         "len, elements around the seam, push, pop, read past the end; "
          "directed stream: every operation x array length {0,1,3} x index in {-1,0,len-1,len,len+1, MAX, MIN, MIN+1, +-2^32, 2^32+1, 2^62, -(2^32-1)} "
          "(quick: a seeded third); random stream: 500 (quick) / 6000 (thorough) histories of up to 25 / 80 statements drawn from "
          "push, pop, get, set, len, is_empty, swap, remove, clear, find, contains and assignment of literal / filled / clone / alias / "
